@@ -147,7 +147,7 @@ def jobs():
             return dict(iargs=[s, n], rargs=[s, n])
         J.append(Job(f"tee[n={n},no lock]", ("itertools", "tee"), None, mk, kind="protocol", props=("C09", "C04", "C01", "C20"), closes=False, release=False,
                      faults=True, thorough=thorough, max_paths=30000,
-                     opts={"protocol": TeeProtocol(n), "state_invariant": tee_invariant, "ghost_tee": True, "ghost_lemma": hist_extended, "fault_kinds": ("raise",), "declared_only": True, "widen_lists": True, "lock_contract": True, "accumulates": "tee buffers hold the lead hist[y_p:] (invariant)", "fresh_solver": True,
+                     opts={"protocol": TeeProtocol(n), "budget_s": 1500 if n == 2 else 900, "state_invariant": tee_invariant, "ghost_tee": True, "ghost_lemma": hist_extended, "fault_kinds": ("raise",), "declared_only": True, "widen_lists": True, "lock_contract": True, "accumulates": "tee buffers hold the lead hist[y_p:] (invariant)", "fresh_solver": True,
                            "under_contract": [("itertools", "tee"), ("itertools", "tee_peer"), ("itertools", "_TeePeer"), ("itertools", "NoLock")]}))
     return J
 
@@ -247,7 +247,7 @@ def _lock_jobs():
     out.append(Job(f"tee[n={n},lock]", ("itertools", "tee"), None, mk, kind="protocol", props=("C09", "C18", "C04", "C20"), closes=False, release=False,
                    faults=True, max_paths=30000,
                    opts={"protocol": TeeProtocol(n), "state_invariant": tee_lock_invariant, "ghost_tee": True, "ghost_lemma": hist_extended, "fault_kinds": ("raise", "cancel"), "declared_only": True, "widen_lists": True, "lock_contract": True, "accumulates": "tee buffers hold the lead hist[y_p:] (invariant)", "thorough_only": True,
-                         "fresh_solver": True, "at_suspension": tee_interfere, "suspend_at_pull": True, "budget_s": 3000,
+                         "fresh_solver": True, "at_suspension": tee_interfere, "suspend_at_pull": True, "budget_s": 900,
                          "under_contract": [("itertools", "tee"), ("itertools", "tee_peer"), ("itertools", "_TeePeer")]}))
     # interference at ONE kind of suspension point per job (they run in parallel): while waiting for the lock (other
     # children fetch and yield meanwhile: the case the re-check after acquiring the lock exists for), while the lock
